@@ -8,6 +8,22 @@ var commonAssumptions = []string{
 }
 
 func init() {
+	register("C02", &propDef{
+		Run: runC02,
+		Info: propInfo{
+			Explanation: "NAT mapping rules on SSA/CFG/call graph: the mapping key is chosen by an exhaustive switch whose classes are none / destination IP / destination IP:port and is combined with the source address; every key used on outboundMap/inboundMap (followed through the lookup helpers to their call sites) has the separator skeleton proto:local:bound resp. proto:mapped, and insert and delete keys agree component by component (through the values stored in the mapping at creation); creation registers in both tables, removal deletes from both; the expiry is written only by functions not reachable from the inbound translation and every outbound reuse refreshes (in the helper or on the caller's found edge); lookup helpers hand a mapping out only on the not-expired edge and remove on the expired edge; the external port is base + counter mod span inside [1,65535] and an address is handed out only on the edge where the inbound table has no live mapping for that very address; 1:1 helpers are index-aligned mirror images and rewrite only the respective side with the port preserved. Wall-clock lifetimes are not decided.",
+			RuleText:    "one obligation per rule; sites are switch tables, key uses, stores, returns; non-trivial = matched at least one site",
+			Assumptions: commonAssumptions,
+		},
+	})
+	register("C03", &propDef{
+		Run: runC03,
+		Info: propInfo{
+			Explanation: "NAT filtering rules: both FilteringBehavior switches are exhaustive and agree (outbound records none/dst IP/dst IP:port, inbound tests none/src IP/src IP:port); in NAPT mode the destination rewrite is dominated by (live mapping found for the destination) and by the ok edge of the exact lookup filters[key] on that mapping, and rewrites to that mapping's .local on the clone that is returned; every successful NAPT outbound translation passes an insert of the selected key into the mapping's filter set or the ok edge of its lookup, and new mappings get a fresh set; everything reachable from the inbound translation inserts into no table / permission set and stores to no mapping or NAT field (effects); the child router pushes exactly the translation's result and only on the nil-error edge, synchronously; 1:1 unpaired destinations cannot reach a successful return.",
+			RuleText:    "one obligation per rule; sites are switch tables, calls, map operations, returns; non-trivial = matched at least one site",
+			Assumptions: commonAssumptions,
+		},
+	})
 	register("C14", &propDef{
 		Run: runC14,
 		Info: propInfo{
